@@ -1,4 +1,5 @@
 import BareModel.Syntax
+import BareModel.Rx
 
 /-!
 # Expression token scanners (mirror of the token regexes of parser.py, `_R_EXPR_*`)
@@ -20,11 +21,14 @@ against the generated `Gen.regexes` in `BareProofs/C02.lean`, theorem `regex_sou
 | `scanVariable`   | `^\s*([A-Za-z_]\w*)` |
 | `scanVariableEx` | `^\s*\[\s*((?:\\\]|[^\]])+)\s*\]` followed by the substitution `\\([\\\]])` → `\1` |
 
-Character classes.  `\s` is modelled exactly (`isPySpace`: the 29 code points for which CPython's `str.isspace` holds;
-`str.strip()` uses the same set).  `\w` and `\d` are modelled on ASCII only (`isWord`, `isDigit`): CPython's `\w` has
-137 936 members and `\d` 680; a non-ASCII letter/digit *outside a string literal or bracketed name* is outside the model
-(stated as an assumption of C02; inside string literals and bracketed names every character is modelled, because the
-patterns there are `[^q]` / `[^\]]`).
+Character classes (the patterns are compiled without `re.ASCII`, so the three classes are the Unicode ones of a `str`
+pattern; all three frozen from CPython 3.12 / Unicode 15.0 and compared with `re` for every code point on every run).
+`\s` = `isPySpace`: the 29 code points for which CPython's `str.isspace` holds (`str.strip()` uses the same set).
+`\d` = `isDigit` = `Rx.isDigitU`: the 680 code points of category `Nd`, in the 64 runs of `Rx.digitRanges`; the decimal value
+of a digit (`digitVal`, what `float()` makes of it: `parse_expression('٣')` is `{'number': 3.0}`) is its offset in its run
+modulo 10 (63 runs are one block `0..9`; `U+1D7CE..U+1D7FF` is five consecutive blocks).
+`\w` = `isWord` = `Text.isWord`: `[A-Za-z0-9_]` plus every Unicode alphanumeric (table `Text.wordRanges`, 137 936 members;
+it contains `\d`), so `aé٣(1)` is a call of the function `aé٣`.  `[A-Za-z_]` (`isIdStart`) is ASCII in the patterns.
 
 Backtracking.  For the two patterns where the engine's backtracking is observable (`'abc\'` is the string `abc\`;
 `[   ]` is the variable named by one space; `[a\]` is the variable `a\`) the scanners compute the *first match in the
@@ -40,15 +44,23 @@ def isPySpace (c : Char) : Bool :=
   (9 ≤ n && n ≤ 13) || (28 ≤ n && n ≤ 32) || n == 0x85 || n == 0xa0 || n == 0x1680 ||
   (0x2000 ≤ n && n ≤ 0x200a) || n == 0x2028 || n == 0x2029 || n == 0x202f || n == 0x205f || n == 0x3000
 
-/-- `\d`, ASCII part -/
-def isDigit (c : Char) : Bool := 48 ≤ c.toNat && c.toNat ≤ 57
+/-- `\d` of a `str` pattern: every Unicode decimal digit (category `Nd`; 680 code points in the 64 runs of
+`Rx.digitRanges`) -/
+def isDigit (c : Char) : Bool := Rx.isDigitU c
+
+/-- the decimal value of a `\d` character as `float()` / `int()` read it (`Py_UNICODE_TODECIMAL`): its offset in its run of
+`Rx.digitRanges`, modulo 10 (the run `U+1D7CE..U+1D7FF` is five blocks `0..9`); `0` for any other character -/
+def digitVal (c : Char) : Nat :=
+  match Rx.digitRanges.find? (fun r => r.1 ≤ c.toNat && c.toNat ≤ r.2) with
+  | some r => (c.toNat - r.1) % 10
+  | none => 0
 
 /-- `[A-Za-z_]` -/
 def isIdStart (c : Char) : Bool :=
   (65 ≤ c.toNat && c.toNat ≤ 90) || (97 ≤ c.toNat && c.toNat ≤ 122) || c == '_'
 
-/-- `\w`, ASCII part -/
-def isWord (c : Char) : Bool := isIdStart c || isDigit c
+/-- `\w` of a `str` pattern: `[A-Za-z0-9_]` and every Unicode alphanumeric (`Text.isWord`, table `Text.wordRanges`) -/
+def isWord (c : Char) : Bool := Text.isWord c
 
 /-- the leading `\s*` of every token pattern (greedy; no token starts with a whitespace character, so the engine never
 gives any of it back — except inside `[ … ]`, see `scanVariableEx`) -/
@@ -111,7 +123,7 @@ def scanVariable (t : List Char) : Option (List Char × List Char) :=
 
 /-! ### numbers -/
 
-def digitsVal (ds : List Char) : Nat := ds.foldl (fun a c => 10 * a + (c.toNat - 48)) 0
+def digitsVal (ds : List Char) : Nat := ds.foldl (fun a c => 10 * a + digitVal c) 0
 
 /-- the exact rational denoted by `[sign] ip [. fp] [e ex]` -/
 def decVal (neg : Bool) (ip fp : List Char) (ex : Int) : Rat :=
